@@ -53,6 +53,10 @@ func (s *Schema) Sanitize() {
 					}
 				}
 				if !ok {
+					// a keyword default of the old type does not move to another type (TRUE on a text column would be a string)
+					if l := strings.ToLower(c.Default); l == "true" || l == "false" {
+						c.Default = ""
+					}
 					switch {
 					case isNumeric(c.Type) && !strings.Contains(strings.ToLower(c.Type), "int"):
 						c.Type = "real"
